@@ -147,6 +147,9 @@ def fsMount (src tgt fstype options : Bytes) : M Unit := do
     else 0
   sysMount src tgt fstype flags options
   if src == b!"/dev" || src == b!"/sys" || src == b!"/run" then
+    -- the propagation change is a fault point of its own (hook `mount-propagation`); the
+    -- pretender was asked once, before the first call, so `gate` cannot answer `false` here
+    let _ ← gate
     sysMount [] tgt [] (Kernel.MS_SLAVE + Kernel.MS_REC) options
 
 /-- fs.Unmount -/
